@@ -55,66 +55,66 @@ impl Decoder for ZmqCodec {
     type Item = Message;
 
     fn decode(&mut self, src: &mut BytesMut) -> Result<Option<Self::Item>, Self::Error> {
-        if src.len() < self.waiting_for {
-            // Do not reserve space for what the peer merely announced: the buffer
-            // grows with the bytes that actually arrive.
-            return Ok(None);
-        }
-        match self.state {
-            DecoderState::Greeting => {
-                if src[0] != 0xff {
-                    return Err(CodecError::Decode("Bad first byte of greeting"));
-                }
-                self.state = DecoderState::FrameHeader;
-                self.waiting_for = 1;
-                Ok(Some(Message::Greeting(ZmqGreeting::try_from(
-                    src.split_to(64).freeze(),
-                )?)))
+        // A loop, not recursion: one read may hold thousands of small frames and every
+        // frame takes three state transitions.
+        loop {
+            if src.len() < self.waiting_for {
+                // Do not reserve space for what the peer merely announced: the buffer
+                // grows with the bytes that actually arrive.
+                return Ok(None);
             }
-            DecoderState::FrameHeader => {
-                let flags = src.get_u8();
-
-                let frame = Frame {
-                    command: (flags & 0b0000_0100) != 0,
-                    long: (flags & 0b0000_0010) != 0,
-                    more: (flags & 0b0000_0001) != 0,
-                };
-                self.state = DecoderState::FrameLen(frame);
-                self.waiting_for = if frame.long { 8 } else { 1 };
-                self.decode(src)
-            }
-            DecoderState::FrameLen(frame) => {
-                self.state = DecoderState::Frame(frame);
-                self.waiting_for = if frame.long {
-                    src.get_u64() as usize
-                } else {
-                    src.get_u8() as usize
-                };
-                self.decode(src)
-            }
-            DecoderState::Frame(frame) => {
-                let data = src.split_to(self.waiting_for);
-                self.state = DecoderState::FrameHeader;
-                self.waiting_for = 1;
-                if frame.command {
-                    return Ok(Some(Message::Command(ZmqCommand::try_from(data.freeze())?)));
+            match self.state {
+                DecoderState::Greeting => {
+                    if src[0] != 0xff {
+                        return Err(CodecError::Decode("Bad first byte of greeting"));
+                    }
+                    self.state = DecoderState::FrameHeader;
+                    self.waiting_for = 1;
+                    return Ok(Some(Message::Greeting(ZmqGreeting::try_from(
+                        src.split_to(64).freeze(),
+                    )?)));
                 }
+                DecoderState::FrameHeader => {
+                    let flags = src.get_u8();
 
-                // process incoming message frame
-                match &mut self.buffered_message {
-                    Some(v) => v.push_back(data.freeze()),
-                    None => self.buffered_message = Some(ZmqMessage::from(data.freeze())),
+                    let frame = Frame {
+                        command: (flags & 0b0000_0100) != 0,
+                        long: (flags & 0b0000_0010) != 0,
+                        more: (flags & 0b0000_0001) != 0,
+                    };
+                    self.state = DecoderState::FrameLen(frame);
+                    self.waiting_for = if frame.long { 8 } else { 1 };
                 }
+                DecoderState::FrameLen(frame) => {
+                    self.state = DecoderState::Frame(frame);
+                    self.waiting_for = if frame.long {
+                        src.get_u64() as usize
+                    } else {
+                        src.get_u8() as usize
+                    };
+                }
+                DecoderState::Frame(frame) => {
+                    let data = src.split_to(self.waiting_for);
+                    self.state = DecoderState::FrameHeader;
+                    self.waiting_for = 1;
+                    if frame.command {
+                        return Ok(Some(Message::Command(ZmqCommand::try_from(data.freeze())?)));
+                    }
 
-                if frame.more {
-                    self.decode(src)
-                } else {
-                    // Quoth the Raven “Nevermore.”
-                    Ok(Some(Message::Message(
-                        self.buffered_message
-                            .take()
-                            .expect("Corrupted decoder state"),
-                    )))
+                    // process incoming message frame
+                    match &mut self.buffered_message {
+                        Some(v) => v.push_back(data.freeze()),
+                        None => self.buffered_message = Some(ZmqMessage::from(data.freeze())),
+                    }
+
+                    if !frame.more {
+                        // Quoth the Raven “Nevermore.”
+                        return Ok(Some(Message::Message(
+                            self.buffered_message
+                                .take()
+                                .expect("Corrupted decoder state"),
+                        )));
+                    }
                 }
             }
         }
